@@ -3,6 +3,7 @@ module verifharness
 go 1.22
 
 require (
+	flamingo.me/dingo v0.2.10
 	flamingo.me/flamingo/v3 v3.10.1
 	flamingo.me/pugtemplate v0.0.0
 	golang.org/x/net v0.27.0
@@ -13,7 +14,6 @@ require (
 	contrib.go.opencensus.io/exporter/prometheus v0.4.2 // indirect
 	contrib.go.opencensus.io/exporter/zipkin v0.1.2 // indirect
 	cuelang.org/go v0.0.15 // indirect
-	flamingo.me/dingo v0.2.10 // indirect
 	github.com/beorn7/perks v1.0.1 // indirect
 	github.com/cespare/xxhash/v2 v2.2.0 // indirect
 	github.com/cockroachdb/apd/v2 v2.0.1 // indirect
